@@ -130,6 +130,36 @@ fn main() {
             let _ = writeln!(out, "{}.big.rcvar\t{}", i, outcome(e.search(rc.clone())));
             let _ = writeln!(out, "{}.big.rcvar_ref\t{}", i, outcome(e.search(&rc)));
         }
+        // (1c) member names that mean something to *other* addressing schemes (JSON Pointer, dotted
+        // paths, array positions) reached by plain member paths, and arithmetic whose result
+        // leaves the doubles: shortcuts that exist only in some builds must not change either
+        if i % 3 == 0 {
+            let docs = [
+                serde_json::json!({"a/b": 1, "a": {"b": 2, "1": "one", "": "empty"}, "paths": {"/users": {"get": "listUsers"}, "~1users": {"get": "wrong"}},
+                                   "m": {"~0": "tilde-zero", "~": "tilde", "~1": "tilde-one", "/": "slash"}, "xs": [10, 20, 30], "": {"": 0}, "a.b": 3, "0": "zero",
+                                   "big": [1e308, 1e308], "neg": [-1e308, -1e308, -1e308], "tiny": [5e-324, 5e-324]}),
+                serde_json::json!({"a": [10, 20, 30], "xs": {"0": "member-zero", "-1": "member-minus-one"}, "m": [["~0"]], "paths": [], "big": [1.7976931348623157e308, 1e292],
+                                   "neg": [], "tiny": [0]}),
+                serde_json::json!([{"0": "m"}, [1, 2]]),
+            ];
+            let paths = [
+                "\"a/b\"", "a.b", "paths.\"/users\".get", "paths.\"~1users\".get", "m.\"~0\"", "m.\"~\"", "m.\"~1\"", "m.\"/\"", "a.\"1\"", "a.\"\"", "\"\".\"\"", "\"a.b\"", "\"0\"", "xs.\"0\"",
+                "xs.\"-1\"", "a | \"1\"", "a.\"1\" | @", "\"a/b\" | @", "m | \"~0\"", "[0].\"0\"", "@.\"0\"", "\"1\"", "paths.\"/users\" | get",
+                "sum(big)", "avg(big)", "sum(neg)", "avg(neg)", "sum(tiny)", "not_null(sum(big), `0`)", "type(sum(big))", "abs(sum(neg))", "big[?@ > sum(tiny)]", "sum(big) || 'd'",
+                "max(big)", "sort(neg)", "ceil(avg(tiny))", "floor(sum(big))",
+            ];
+            let doc = &docs[rng.below(docs.len())];
+            let text = paths[rng.below(paths.len())];
+            let e = jmespath::compile(text).unwrap();
+            let var = var_of(doc);
+            let rc = Rcvar::new(var.clone());
+            let _ = writeln!(out, "{}.names.value\t{}\t{}", i, text, outcome(e.search(doc.clone())));
+            let _ = writeln!(out, "{}.names.value_ref\t{}\t{}", i, text, outcome(e.search(doc)));
+            let _ = writeln!(out, "{}.names.variable\t{}\t{}", i, text, outcome(e.search(var.clone())));
+            let _ = writeln!(out, "{}.names.variable_ref\t{}\t{}", i, text, outcome(e.search(&var)));
+            let _ = writeln!(out, "{}.names.rcvar\t{}\t{}", i, text, outcome(e.search(rc.clone())));
+            let _ = writeln!(out, "{}.names.rcvar_ref\t{}\t{}", i, text, outcome(e.search(&rc)));
+        }
         // (2) scalar inputs of every specially-handled type
         let se = jmespath::compile(scalar_exprs[rng.below(scalar_exprs.len())]).unwrap();
         let pick = |rng: &mut Rng, min: i128, max: i128| -> i128 {
